@@ -1,4 +1,6 @@
 import HranoModel.Lemmas.Tree
+import HranoModel.Lemmas.Collapse
+import HranoModel.Lemmas.Chain
 import HranoModel.Props.C07
 /-!
 C03 — the balance tree conserves logged quantities in every display mode.
@@ -10,10 +12,12 @@ known-findings.txt).  Vocabulary (`Spec/Balance.lean`): `totalAt` the amount at 
 `prefixSum` the sum of the logged quantities at or below a path, `preorderList` the rows in pre-order,
 `chainNames / chainEnd` the chain of sole children a collapsed row joins.
 
-Stated but not yet proved (checked by the C03 check exhaustively over small path sets and randomly beyond):
-`NoPrefix log → leaves (collapsed output) = leaves (plain output)` as a statement about parsed output text.
-The theorems below give its ingredients on the tree itself: what a collapsed row is and that printing
-continues below the end of the chain.
+Leaf preservation: `--collapse` and `--collapse-last` print exactly the plain rows of a transformed tree
+(`collapseList`, `collapseLastList`: chains of sole children joined), and whenever every node with a single
+child carries that child's amount (`chainOKList`, which is what "no logged food name is a path-prefix of
+another" means for the tree) the transformed trees have the same leaf paths with the same amounts
+(`display_modes_same_leaves`); `Tree.build` of a log in which no food name is a proper path-prefix of another
+satisfies `chainOKList` (`Lemmas/Chain.lean`), which gives the property as stated: `collapse_preserves_leaves`.
 -/
 namespace Hrano.C03
 open Hrano Hrano.Spec Hrano.Tree Hrano.Report
@@ -74,6 +78,35 @@ theorem top_level_amounts_conserved (cs : List Tree) :
             | cons x xs => exact ⟨n, printChildren true 1 [node gn gt (x :: xs)], by simp [printChild, Tree.total]⟩
         | cons g2 gs2 => exact ⟨n, printChildren true 1 (g :: g2 :: gs2), by simp [printChild, Tree.total]⟩
 
+/-- **`--collapse` prints the plain rows of the tree with its chains joined** -/
+theorem collapse_is_plain_of_joined (level : Nat) (cs : List Tree) :
+    printCollapsedChildren level cs = printChildren false level (collapseList cs) :=
+  collapsedList_is_plain level cs
+
+/-- **`--collapse-last` prints the plain rows of the tree with its last links joined** -/
+theorem collapse_last_is_plain_of_joined (level : Nat) (cs : List Tree) :
+    printChildren true level cs = printChildren false level (collapseLastList cs) :=
+  collapseLastList_is_plain level cs
+
+/-- **Every display mode shows the same leaf paths with the same amounts and drops no branch**: when every node
+    with exactly one child carries that child's amount (no food was logged at the node itself), the trees whose
+    plain rows `--collapse` and `--collapse-last` print have exactly the leaves of the original tree — full path
+    (segments joined by the separator) and amount, in the same order. -/
+theorem display_modes_same_leaves (cs : List Tree) (p : Bytes) (h : chainOKList cs = true) :
+    leavesList p (collapseList cs) = leavesList p cs ∧ leavesList p (collapseLastList cs) = leavesList p cs :=
+  ⟨collapseList_leaves cs p h, collapseLastList_leaves cs p h⟩
+
+/-- **Main theorem (collapse options only join path segments).**  For every log in which no food name is a proper
+    path-prefix of another, the trees whose plain rows `--collapse` and `--collapse-last` print have exactly the leaf
+    paths and amounts of the tree the plain balance prints — no branch is dropped, no amount changed. -/
+theorem collapse_preserves_leaves (es : Elements) (p : Bytes) (hpf : PrefixFree (es.map pathOf)) :
+    printCollapsedChildren 0 (Tree.build es) = printChildren false 0 (collapseList (Tree.build es))
+    ∧ printChildren true 0 (Tree.build es) = printChildren false 0 (collapseLastList (Tree.build es))
+    ∧ leavesList p (collapseList (Tree.build es)) = leavesList p (Tree.build es)
+    ∧ leavesList p (collapseLastList (Tree.build es)) = leavesList p (Tree.build es) :=
+  have h := build_chainOK es hpf
+  ⟨collapsedList_is_plain 0 _, collapseLastList_is_plain 0 _, collapseList_leaves _ p h, collapseLastList_leaves _ p h⟩
+
 /-- single-element mode: the tree is built from `quantity × the food's amount of the element` (a directly logged
     element counting as itself), and the grand total printed under the tree is the sum of those contributions —
     which is the period total of the element (C07) -/
@@ -89,5 +122,18 @@ example : totalAt (Tree.build demo) [[97], [98]] = 11 ∧ totalAt (Tree.build de
 example : (preorderList 0 (Tree.build demo)).map (fun r => (r.1, r.2.1))
     = [(0, [97]), (1, [98]), (2, [99]), (2, [100]), (0, [120])] := by decide +kernel
 example : chainNames (node [97] 11 [node [98] 11 [node [99] 9 [], node [100] 2 []]]) = [[97], [98]] := by decide
+example : chainOKList (Tree.build demo) = true := by decide +kernel
+example : leavesList [] (collapseList (Tree.build demo)) = [([97, 47, 98, 47, 99], 9), ([97, 47, 98, 47, 100], 2), ([120], 4)] := by decide +kernel
+example : (preorderList 0 (collapseList (Tree.build demo))).map (fun r => (r.1, r.2.1))
+    = [(0, [97, 47, 98]), (1, [99]), (1, [100]), (0, [120])] := by decide +kernel
+example : PrefixFree (demo.map pathOf) := by
+  intro a ha b hb ⟨r, hr, he⟩
+  have hd : demo.map pathOf = [[[97], [98], [99]], [[97], [98], [100]], [[120]], [[97], [98], [99]]] := by decide +kernel
+  rw [hd] at ha hb
+  simp only [List.mem_cons, List.not_mem_nil, or_false] at ha hb
+  rcases ha with rfl | rfl | rfl | rfl <;> rcases hb with rfl | rfl | rfl | rfl <;> simp at he <;> (try exact hr he) <;> (try (subst he; exact hr rfl))
+/-- the side condition is needed: with a food logged at a category that has a single child the collapsed row
+    shows the category's amount, not the leaf's (the property excludes such logs) -/
+example : chainOKList (Tree.build [⟨[97], 1⟩, ⟨[97, 47, 98], 2⟩]) = false := by decide +kernel
 
 end Hrano.C03
